@@ -711,24 +711,22 @@ def cli_scenarios(tier, seed):
 
     # --- the fixed core (quick and thorough): every warning situation x path style x directory class at least once;
     # 16 runs (one per worker process), 8 of them with every crash point
-    add(mw='none', paths='rel', pre='gap', dumps=('graph',), faults=True)
+    add(mw='none', paths='rel', pre='gap', dumps=('graph',), faults=True, variants=1)
     add(n_alt=2, mw='left-none', paths='rel', pre='b1', dumps=('graph',))
     add(n_alt=2, mw='number', paths='abs', pre='gap', faults=True, variants=1)
     add(n_alt=1, mw='type', paths='sub', pre='hole1', faults=True, variants=1)
     add(n_alt=3, mw='typecount', paths='dots', pre='mix', dumps=('graph', 'repair', 'canon'), dumps_pre=True)
     add(n_alt=3, mw='left-typecount', paths='abs', pre='files', dumps=('repair',), dumps_pre=True)
     add(n_alt=2, gen=True, mw='left-typeonly', paths='rel', pre='gap')
-    add(n_alt=1, gen=True, mw='mixed', paths='same', pre='b1', faults=True)
-    add(n_alt=0, mw='none', paths='xin', pre='files', faults=True)
+    add(n_alt=1, gen=True, mw='mixed', paths='same', pre='b1', faults=True, variants=1)
+    add(n_alt=0, mw='none', paths='xin', pre='files', faults=True, variants=1)
     add(n_alt=2, mw='left-number', paths='xin', pre='b1')
-    add(chains='PS', n_alt=1, mw='type', paths='rel', pre='gap', faults=True)
-    add(chains='PP', extra=('-sep',), mw='none', paths='oabs', pre='mix', faults=True)
+    add(chains='PS', n_alt=1, mw='type', paths='rel', pre='gap', faults=True, variants=1)
+    add(chains='PP', extra=('-sep',), mw='none', paths='oabs', pre='mix', faults=True, variants=1)
     add(chains='S', extra=('-go', '-go-write-file', 'contacts.out'), mw='number', n_alt=1, paths='rel', pre='gap', faults=True)
     add(chains='S', extra=('-go',), mw='left-wrongtype', n_alt=1, paths='sub', pre='b1', dumps=('canon',))
     add(ffwarn=True, mw='typecount', paths='xitp', pre='hole1')
     add(ffwarn=True, n_alt=1, mw='left-typeonly', paths='same', pre='files')
-    if tier == 'quick':
-        return out
     add(n_alt=1, mw='number', paths='absin', pre='orphan', top=False, faults=True)
     add(n_alt=1, mw='left-none', paths='same', pre='gap')
     add(n_alt=0, mw='none', paths='xitp', pre='b1', faults=True)
@@ -738,7 +736,7 @@ def cli_scenarios(tier, seed):
     inputs = [('P', ()), ('P', ()), ('PS', ()), ('PP', ('-sep',)), ('PP', ()), ('S', ('-go',)),
               ('S', ('-go', '-go-write-file', 'map.out')), ('SP', ('-merge', 'all')), ('P', ('-elastic',))]
     n = 0
-    while n < 150:
+    while n < (5 if tier == 'quick' else 150):
         chains, extra = rng.choice(inputs)
         left = rng.random() < 0.45
         gen = rng.random() < 0.3
@@ -834,7 +832,7 @@ def lib_scenarios(tier, seed):
                                       ['open', 'c.itp', 'w', ['eps'], 'inst'], ['finalise', [k, EXCS[k % 3]]]],
             pre=[old('a.itp'), old('b.itp'), old('a.itp', 2)])
     # random histories over several spellings, modes, routes, rounds, discards and crash points
-    nrand = 12 if tier == 'quick' else 400
+    nrand = 40 if tier == 'quick' else 600
     files = ['a.itp', 'sub/b.top', 'c.pdb', 'sub/d.gro']
     spell = {'a.itp': ['a.itp', './a.itp', 'sub/../a.itp', '{W}/a.itp'], 'sub/b.top': ['sub/b.top', './sub/b.top', '{W}/sub/b.top'],
              'c.pdb': ['c.pdb', '{W}/sub/../c.pdb'], 'sub/d.gro': ['sub/d.gro', 'sub/./d.gro']}
@@ -960,6 +958,7 @@ def scenario_class(sc, meta, facts):
 
 def worker(idx, scenarios, scratch, outfile):
     """One worker process: runs its scenarios (each in a fresh fork), judges them with its own TLC, writes a summary."""
+    t_start = time.time()
     summary = {'n': 0, 'events': 0, 'unjudged': [], 'violations': [], 'classes': collections.Counter(), 'crash_points': 0,
                'primitives': 0, 'samples': [], 'tlc': [], 'nontrivial': [], 'not_singleton': 0, 'exact': 0, 'observed': 0}
     try:
@@ -993,6 +992,8 @@ def worker(idx, scenarios, scratch, outfile):
                 summary['primitives'] += facts['prims']
                 summary['exact'] += facts['exact']
                 summary['observed'] += facts['observed']
+                if facts['exact'] != facts['observed']:
+                    summary.setdefault('inexact', []).append({'scenario': sc, 'facts': facts})
                 if not r['meta'].get('same_singleton', True):
                     summary['not_singleton'] += 1
                 if variant:
@@ -1016,6 +1017,7 @@ def worker(idx, scenarios, scratch, outfile):
     except BaseException:      # noqa
         summary['error'] = traceback.format_exc()[-2000:]
     summary['classes'] = dict(summary['classes'])
+    summary['elapsed'] = time.time() - t_start
     with open(outfile + '.tmp', 'w') as fh:
         json.dump(common.jsonable(summary), fh)
     os.replace(outfile + '.tmp', outfile)
@@ -1029,10 +1031,18 @@ class Family:
         if scenarios is None:
             scenarios = cli_scenarios(tier, seed) + lib_scenarios(tier, seed)
         self.scenarios = scenarios
-        # long scenarios (command line with crash points) first, dealt round-robin
-        order = sorted(range(len(scenarios)), key=lambda i: (scenarios[i]['fam'] != 'cli', not scenarios[i].get('faults'), i))
+        # longest-processing-time-first onto the least loaded worker (estimated seconds: a command-line run ~6, each set of
+        # crash points ~1.5, a library history ~0.3)
+        def cost(sc):
+            if sc['fam'] != 'cli':
+                return 0.3
+            return 6.0 + (1.5 * (1 + sc.get('variants', 0)) if sc.get('faults') and not sc.get('expect_left') else 0.0)
         n = nworkers or min(tlc.NCPU, max(1, len(scenarios)))
-        shares = [[scenarios[i] for i in order[w::n]] for w in range(n)]
+        shares, load = [[] for _ in range(n)], [0.0] * n
+        for i in sorted(range(len(scenarios)), key=lambda i: (-cost(scenarios[i]), i)):
+            w = min(range(n), key=lambda j: (load[j], j))
+            shares[w].append(scenarios[i])
+            load[w] += cost(scenarios[i])
         ctx = mp.get_context('fork')
         self.procs = []
         for w, share in enumerate(shares):
@@ -1045,7 +1055,8 @@ class Family:
 
     def collect(self, timeout):
         merged = {'n': 0, 'events': 0, 'unjudged': [], 'violations': [], 'classes': collections.Counter(), 'crash_points': 0,
-                  'primitives': 0, 'samples': [], 'tlc': [], 'nontrivial': [], 'not_singleton': 0, 'exact': 0, 'observed': 0}
+                  'primitives': 0, 'samples': [], 'tlc': [], 'nontrivial': [], 'not_singleton': 0, 'exact': 0, 'observed': 0,
+                  'inexact': []}
         deadline = time.time() + timeout
         for p, out, share in self.procs:
             p.join(max(1, deadline - time.time()))
@@ -1064,6 +1075,8 @@ class Family:
             for k in ('unjudged', 'violations', 'samples', 'tlc', 'nontrivial'):
                 merged[k] += s[k]
             merged['classes'].update(s['classes'])
+            merged['inexact'] += s.get('inexact', [])
+            merged['worker_s'] = max(merged.get('worker_s', 0), s.get('elapsed', 0))
         merged['wall'] = time.time() - self.t0
         return merged
 
